@@ -28,7 +28,7 @@ def cells(tier, seed):
     rnd = core.rng_for(seed, PROP, tier)
     waves = [w for w in refs.all_wavelets() if refs.flen(w) <= 24]
     out = []
-    n = 220 if tier == 'quick' else 8000
+    n = 220 if tier == 'quick' else 60000
     while len(out) < n:
         wc, wr = rnd.choice(waves), rnd.choice(waves)
         if refs.flen(wc) == refs.flen(wr):
